@@ -255,16 +255,16 @@ Proof.
   - look c i; fin. now apply absm_set_heap.
   - (* flatten *)
     look c i; [|fin].
-    assert (I1 := Inv_set_heap c p (Created (heap c p)) I).
+    assert (I1 := Inv_set_heap c p (FlatSrc (heap c p)) I).
     rewrite <- (absm_set_heap c i p _ I L).
     split; [|split; [reflexivity|]].
     + now apply absm_alloc_if.
     + now apply Inv_alloc_if.
   - (* segment by id *)
     look c i; [|fin].
-    assert (I1 := Inv_set_heap c p (Created (heap c p)) I).
+    assert (I1 := Inv_set_heap c p (SegSrc (heap c p)) I).
     rewrite <- (absm_set_heap c i p _ I L).
-    set (c1 := set_heap c p (Created (heap c p))) in *.
+    set (c1 := set_heap c p (SegSrc (heap c p))) in *.
     assert (I2 := Inv_alloc_if (ok && hc) c1 (fun n => CreditOf (Created (heap c p)) (Gen n)) I1).
     rewrite <- (absm_alloc_if (ok && hc) c1 _ I1).
     set (c2 := alloc_if (ok && hc) c1 _) in *.
@@ -415,7 +415,7 @@ Proof.
   - destruct (lookup (store c) j) as [p|]; simpl; auto.
     split; [rewrite lookup_alloc_if; auto|apply old_alloc_if; auto].
   - destruct (lookup (store c) j) as [p|]; simpl; auto.
-    set (c1 := set_heap c p (Created (heap c p))).
+    set (c1 := set_heap c p (SegSrc (heap c p))).
     assert (O1 : old c1 i) by exact O.
     assert (O2 := old_alloc_if (ok && hc) c1 (fun n => CreditOf (Created (heap c p)) (Gen n)) i O1).
     split; [|now apply old_alloc_if].
@@ -491,7 +491,7 @@ Section Interp.
   Variable parse : fmt -> body -> opts -> V.
   Variable parseb : fmt -> body -> V.
   Variable setid : V -> id -> V.
-  Variable create : V -> V.
+  Variable create flatsrc segsrc : V -> V.
   Variable addb : V -> body -> V.
   Variable delb : V -> bid -> V.
   Variable flat cred deb : V -> id -> V.
@@ -503,6 +503,8 @@ Section Interp.
     | ParsedBody f b => parseb f b
     | WithID t i => setid (den t) i
     | Created t => create (den t)
+    | FlatSrc t => flatsrc (den t)
+    | SegSrc t => segsrc (den t)
     | WithBatch t b => addb (den t) b
     | WithoutBatch t k => delb (den t) k
     | Flattened t i => flat (den t) i
@@ -512,6 +514,11 @@ Section Interp.
     end.
 
   Definition tabulated (v : V) : Prop := create v = v.
+
+  (* purity of FlattenBatches / SegmentFile with respect to their receiver (C14), after the
+     Create that precedes them in the service *)
+  Hypothesis flat_pure : forall v, tabulated v -> flatsrc v = v.
+  Hypothesis seg_pure : forall v, tabulated v -> segsrc v = v.
 
   (* what GET i shows, semantically *)
   Definition shows (m : mstate) (i : id) : option V := option_map den (lookup (mfiles m) i).
@@ -544,29 +551,37 @@ Section Interp.
     shows (fst (mstep m r)) j = Some v /\ mold (fst (mstep m r)) j.
   Proof.
     intros RO O S T. unfold mstep.
-    assert (K : forall i t, lookup (mfiles m) i = Some t ->
-                shows (mset m i (Created t)) j = Some v).
-    { intros i t L. destruct (id_eqb i j) eqn:E.
+    assert (KT : forall i t, lookup (mfiles m) i = Some t -> i = j -> tabulated (den t)).
+    { intros i t L E. subst i. unfold shows in S. rewrite L in S. simpl in S. inversion S. now subst v. }
+    assert (K : forall i t k, lookup (mfiles m) i = Some t -> (i = j -> den (k t) = den t) ->
+                shows (mset m i (k t)) j = Some v).
+    { intros i t k L Hk. destruct (id_eqb i j) eqn:E.
       - apply id_eqb_eq in E. subst i. rewrite shows_mset_eq by congruence.
-        unfold shows in S. rewrite L in S. simpl in S. inversion S. subst v. simpl. now rewrite T.
+        unfold shows in S. rewrite L in S. simpl in S. inversion S. subst v. now rewrite (Hk eq_refl).
       - apply id_eqb_neq in E. now rewrite shows_mset_neq. }
+    assert (KC : forall i t, lookup (mfiles m) i = Some t -> shows (mset m i (Created t)) j = Some v).
+    { intros i t L. apply K; [assumption|]. intro E. simpl. apply (KT i t L E). }
+    assert (KF : forall i t, lookup (mfiles m) i = Some t -> shows (mset m i (FlatSrc t)) j = Some v).
+    { intros i t L. apply K; [assumption|]. intro E. simpl. apply flat_pure, (KT i t L E). }
+    assert (KS : forall i t, lookup (mfiles m) i = Some t -> shows (mset m i (SegSrc t)) j = Some v).
+    { intros i t L. apply K; [assumption|]. intro E. simpl. apply seg_pure, (KT i t L E). }
     destruct r as [f b o url bodyid|i| |i l|i o|i|i|i b decodes dup|i k|i|i k|i ok|i ok hc hd|f b ok hc hd|i o ok];
       try discriminate; unfold gstep; cbn [ret ret2].
     - destruct (lookup (mfiles m) i); simpl; auto.
     - simpl; auto.
-    - destruct (lookup (mfiles m) i) eqn:L; simpl; [split; [now apply K|now apply mold_mset]|auto].
+    - destruct (lookup (mfiles m) i) eqn:L; simpl; [split; [now apply KC|now apply mold_mset]|auto].
     - destruct (lookup (mfiles m) i); simpl; auto.
-    - destruct (lookup (mfiles m) i) eqn:L; simpl; [split; [now apply K|now apply mold_mset]|auto].
+    - destruct (lookup (mfiles m) i) eqn:L; simpl; [split; [now apply KC|now apply mold_mset]|auto].
     - destruct (lookup (mfiles m) i); simpl; auto.
     - destruct (lookup (mfiles m) i); simpl; auto.
     - destruct (lookup (mfiles m) i) eqn:L; simpl; [|auto].
-      split; [rewrite shows_malloc_if; [now apply K|now apply mold_mset]|now apply mold_malloc_if, mold_mset].
+      split; [rewrite shows_malloc_if; [now apply KF|now apply mold_mset]|now apply mold_malloc_if, mold_mset].
     - destruct (lookup (mfiles m) i) eqn:L; simpl; [|auto].
-      set (m1 := mset m i (Created t)).
+      set (m1 := mset m i (SegSrc t)).
       assert (O1 : mold m1 j) by now apply mold_mset.
       assert (O2 := mold_malloc_if (ok && hc) m1 (fun n => CreditOf (Created t) (Gen n)) j O1).
       split; [|now apply mold_malloc_if].
-      rewrite shows_malloc_if by assumption. rewrite shows_malloc_if by assumption. now apply K.
+      rewrite shows_malloc_if by assumption. rewrite shows_malloc_if by assumption. now apply KS.
     - simpl.
       assert (O2 := mold_malloc_if (ok && hc) m (fun n => CreditOf (Created (ParsedBody f b)) (Gen n)) j O).
       split; [|now apply mold_malloc_if].
@@ -636,8 +651,14 @@ Definition taddb (v : toyV) (_ : body) : toyV := (fst v + 1, snd v).
 Definition tdelb (v : toyV) (_ : bid) : toyV := (fst v - 1, snd v).
 Definition tder (v : toyV) (_ : id) : toyV := v.
 Definition tbal (v : toyV) (_ : offs) (_ : id) : toyV := v.
+Definition tpure (v : toyV) : toyV := v.
 Definition toy_shows : mstate -> id -> option toyV :=
-  shows toyV tparse tparseb tsetid tcreate taddb tdelb tder tder tder tbal.
+  shows toyV tparse tparseb tsetid tcreate tpure tpure taddb tdelb tder tder tder tbal.
+
+(* a library whose FlattenBatches renumbers its receiver, as the real one does *)
+Definition timpure (v : toyV) : toyV := (fst v, 0).
+Definition toy_shows_impure : mstate -> id -> option toyV :=
+  shows toyV tparse tparseb tsetid tcreate timpure tpure taddb tdelb tder tder tder tbal.
 
 Definition retab_witness_state : mstate := MState [(Client 1, WithBatch (Parsed Text 1 0) 2)] 0.
 
@@ -650,6 +671,16 @@ Lemma read_changes_untabulated :
   ~ tabulated toyV tcreate (2, 1) /\
   toy_shows (fst (mstep retab_witness_state (RContents (Client 1) LF))) (Client 1) = Some (2, 2).
 Proof. split; [vm_compute; reflexivity|]. split; [vm_compute; discriminate|vm_compute; reflexivity]. Qed.
+
+(* a tabulated stored file, but a FlattenBatches that is not pure: POST flatten changes what GET shows *)
+Lemma flatten_changes_if_impure :
+  let m := MState [(Client 1, Parsed Text 1 0)] 0 in
+  toy_shows_impure m (Client 1) = Some (1, 1) /\ tabulated toyV tcreate (1, 1) /\
+  toy_shows_impure (fst (mstep m (RFlatten (Client 1) true))) (Client 1) = Some (1, 0).
+Proof. vm_compute. repeat split; reflexivity. Qed.
+
+Lemma toy_pure : forall v : toyV, tabulated toyV tcreate v -> tpure v = v.
+Proof. reflexivity. Qed.
 
 (* non-vacuity of the tabulated hypothesis in the same toy library *)
 Lemma read_preserves_example :
